@@ -410,6 +410,66 @@ def search_diagnostics(clause, budget, rng):
     return None
 
 
+def search_factory(meth, clause, budget, rng):
+    """The public factory methods of BaseRelation against direct evaluation of what their documentation says (iteration engine, small
+    leaves; every operation of the small universes of replay/direct.py that is meaningful on the leaf)."""
+    from lsst.daf.relation import iteration
+
+    eng = iteration.Engine(name="E")
+    n = 0
+    ls = D.leaves(eng, 3)
+    rng.shuffle(ls)
+
+    def got(rel):
+        return list(eng.execute(rel))
+
+    for leaf in ls:
+        X = D.rows_of(leaf)
+        cases = []
+        if meth == "with_rows_satisfying":
+            cases = [(lambda p=o.predicate: leaf.with_rows_satisfying(p), D.sem(o, X), f"with_rows_satisfying({o.predicate})") for o in D.ops_of_class("Selection", leaf.columns)]
+        elif meth == "with_calculated_column":
+            cases = [(lambda o=o: leaf.with_calculated_column(o.tag, o.expression), D.sem(o, X), f"with_calculated_column({o.tag}, {o.expression})")
+                     for o in D.ops_of_class("Calculation", leaf.columns) if o.tag not in leaf.columns]
+        elif meth == "with_only_columns":
+            cases = [(lambda o=o: leaf.with_only_columns(o.columns), D.sem(o, X), f"with_only_columns({set(o.columns)})") for o in D.ops_of_class("Projection", leaf.columns)]
+        elif meth == "without_duplicates":
+            cases = [(lambda: leaf.without_duplicates(), D.sem(D.Deduplication(), X), "without_duplicates()")]
+        elif meth == "sorted":
+            cases = [(lambda o=o: leaf.sorted(list(o.terms)), D.sem(o, X), f"sorted({[str(t) for t in o.terms]})") for o in D.ops_of_class("Sort", leaf.columns)]
+        elif meth == "chain":
+            cases = [(lambda q=q: leaf.chain(q), X + D.rows_of(q), f"chain({q})") for q in ls[:12] if q.columns == leaf.columns]
+        elif meth == "join":
+            for q in ls[:10]:
+                common = frozenset(t for t in q.columns & leaf.columns if t.is_key)
+                if (q.columns & leaf.columns) - common:
+                    continue
+                for p in D.preds(sorted(leaf.columns | q.columns, key=str))[:4]:
+                    cases.append((lambda q=q, p=p: leaf.join(q, p), D.join_rows(p, common, X, D.rows_of(q)), f"join({q}, {p})"))
+        elif meth in ("materialized", "transferred_to"):
+            other = iteration.Engine(name="E2")
+            cases = [((lambda: leaf.materialized("m")) if meth == "materialized" else (lambda: leaf.transferred_to(other)), X, meth)]
+        for call, want, what in cases:
+            n += 1
+            if n > budget:
+                return None
+            try:
+                rel = call()
+                if meth == "transferred_to":
+                    have = D.rows_of(rel)
+                    if rel.engine is not other:
+                        return f"{leaf}.{what}: result engine is {rel.engine}"
+                else:
+                    # the returned tree is evaluated directly (replay/direct.py), not by the iteration engine: what execute() does with a tree
+                    # is C01's subject (and carries known finding F8); here the question is which tree the factory built
+                    have = D.rows_of(rel)
+            except Exception as e:  # noqa: BLE001
+                return f"{leaf}.{what} on rows {X} raised {type(e).__name__}: {e}"
+            if not D.same_rows(have, want):
+                return f"{leaf}.{what} on rows {X}: got {have}, documented meaning {want}"
+    return None
+
+
 def main():
     key, clause = sys.argv[1], sys.argv[2]
     budget = int(sys.argv[3]) if len(sys.argv) > 3 else 4000
@@ -424,6 +484,9 @@ def main():
         not_reproduced(f"(bounded search, budget {budget})")
     if fn == "Diagnostics.run":
         found = search_diagnostics(clause, budget, rng)
+    elif key.startswith("_relation:BaseRelation.") and meth in ("with_rows_satisfying", "with_calculated_column", "with_only_columns", "without_duplicates",
+                                                              "sorted", "chain", "join", "materialized", "transferred_to"):
+        found = search_factory(meth, clause, budget, rng)
     elif fn == "Transfer.simplify":
         found = search_transfer_simplify(clause, budget, rng)
     elif fn in ("Engine.materialize", "Materialization.simplify"):
